@@ -415,8 +415,8 @@ func (s *Service) ReferencedInternals() []string {
 	return internals
 }
 
-// validate ensures Service oneways don't return anything and field ids aren't
-// duplicated.
+// validate ensures Service oneways don't return anything and field ids and
+// names aren't duplicated.
 func (s *Service) validate() error {
 	for _, method := range s.Methods {
 		// Ensure oneways don't return anything.
@@ -431,14 +431,23 @@ func (s *Service) validate() error {
 			}
 		}
 
-		// Ensure field ids aren't duplicated.
-		ids := make(map[int]struct{})
-		for _, arg := range method.Arguments {
-			if _, ok := ids[arg.ID]; ok {
-				return fmt.Errorf("Duplicate field id %d in method %s.%s",
-					arg.ID, s.Name, method.Name)
+		// Ensure field ids and names aren't duplicated among the arguments
+		// and among the exceptions.
+		for _, fields := range [][]*Field{method.Arguments, method.Exceptions} {
+			ids := make(map[int]struct{})
+			names := make(map[string]struct{})
+			for _, field := range fields {
+				if _, ok := ids[field.ID]; ok {
+					return fmt.Errorf("Duplicate field id %d in method %s.%s",
+						field.ID, s.Name, method.Name)
+				}
+				ids[field.ID] = struct{}{}
+				if _, ok := names[field.Name]; ok {
+					return fmt.Errorf("Duplicate field name %s in method %s.%s",
+						field.Name, s.Name, method.Name)
+				}
+				names[field.Name] = struct{}{}
 			}
-			ids[arg.ID] = struct{}{}
 		}
 	}
 	return nil
@@ -1280,6 +1289,7 @@ func (f *Frugal) validateExceptions() error {
 
 func (f *Frugal) validateStructLike(s *Struct) error {
 	ids := make(map[int]struct{})
+	names := make(map[string]struct{})
 	for _, field := range s.Fields {
 		if !f.isValidType(field.Type) {
 			return fmt.Errorf("Invalid type %s on struct %s", field.Type.String(), s.Name)
@@ -1288,6 +1298,10 @@ func (f *Frugal) validateStructLike(s *Struct) error {
 			return fmt.Errorf("Duplicate field id %d in struct %s", field.ID, s.Name)
 		}
 		ids[field.ID] = struct{}{}
+		if _, ok := names[field.Name]; ok {
+			return fmt.Errorf("Duplicate field name %s in struct %s", field.Name, s.Name)
+		}
+		names[field.Name] = struct{}{}
 	}
 	return nil
 }
